@@ -352,12 +352,12 @@ theorem mem_map_lowerExact {x : Bytes} {l : List Bytes} (h : x ∈ l.map lowerEx
   | true => left; simp [hf] at hx; exact ⟨rfl, hx.symm⟩
   | false => right; simp [hf] at hx; exact ⟨rfl, hx.symm⟩
 
-/-- **the large-list code path computes the linear scan.** -/
-theorem matchHost_large (thr : Nat) (l : List Bytes) (rhost : Bytes) (hl : l.length > thr) :
-    matchHost thr (sortHosts (l.map lowerExact)) rhost = l.any (entryMatches (stripPort rhost)) := by
-  have hperm := sortHosts_perm (l.map lowerExact)
-  have hs := sortHosts_sorted (l.map lowerExact)
-  have hlen : (sortHosts (l.map lowerExact)).length > thr := by
+/-- **the large-list code path computes the linear scan**, for EVERY slice `m` that is a sorted
+    permutation of the lower-cased entries — i.e. whatever `sort.Slice` (unstable) returns. -/
+theorem matchHost_sorted (thr : Nat) (l m : List Bytes) (rhost : Bytes) (hl : l.length > thr)
+    (hperm : m.Perm (l.map lowerExact)) (hs : Sorted m) :
+    matchHost thr m rhost = l.any (entryMatches (stripPort rhost)) := by
+  have hlen : m.length > thr := by
     rw [hperm.length_eq, List.length_map]; exact hl
   unfold matchHost
   simp only [hlen, decide_true, Bool.true_and]
@@ -382,7 +382,7 @@ theorem matchHost_large (thr : Nat) (l : List Bytes) (rhost : Bytes) (hl : l.len
     rcases List.any_eq_true.mp hyp with ⟨e, he, hem⟩
     cases hfe : fuzzy e with
     | true =>
-      have hmem : e ∈ sortHosts (l.map lowerExact) := by
+      have hmem : e ∈ m := by
         apply hperm.mem_iff.mpr
         apply List.mem_map.mpr
         exact ⟨e, he, by simp [lowerExact, hfe]⟩
@@ -392,13 +392,18 @@ theorem matchHost_large (thr : Nat) (l : List Bytes) (rhost : Bytes) (hl : l.len
     | false =>
       rw [entryMatches_exact h e hfe] at hem
       have hem : lower h = lower e := by simpa using hem
-      have hmem : lower h ∈ sortHosts (l.map lowerExact) := by
+      have hmem : lower h ∈ m := by
         apply hperm.mem_iff.mpr
         apply List.mem_map.mpr
         exact ⟨e, he, by simp [lowerExact, hfe, hem]⟩
-      have : fastHit (sortHosts (l.map lowerExact)) (lower h) = true :=
+      have : fastHit (m) (lower h) = true :=
         (fastHit_iff _ _ hs).mpr ⟨hmem, by rw [hem, fuzzy_lower, hfe]⟩
       simp [this]
+
+/-- the model's own sort (insertion sort) is one such slice -/
+theorem matchHost_large (thr : Nat) (l : List Bytes) (rhost : Bytes) (hl : l.length > thr) :
+    matchHost thr (sortHosts (l.map lowerExact)) rhost = l.any (entryMatches (stripPort rhost)) :=
+  matchHost_sorted thr l _ rhost hl (sortHosts_perm _) (sortHosts_sorted _)
 
 theorem matchHost_small (thr : Nat) (l : List Bytes) (rhost : Bytes) (hl : ¬ l.length > thr) :
     matchHost thr l rhost = l.any (entryMatches (stripPort rhost)) := by
